@@ -612,3 +612,11 @@ func hasDeferStatement(nodes []ast.Node) bool {
 	return false
 }
 
+// isStructIndirection reports whether expr, that is an indirection *p, has a
+// struct type, so that a field of the struct can be selected through the
+// pointer p. If the indirection has been added by the type checker, it has no
+// type info and p is a pointer to a struct.
+func (em *emitter) isStructIndirection(expr ast.Expression) bool {
+	ti := em.ti(expr)
+	return ti == nil || ti.Type == nil || ti.Type.Kind() == reflect.Struct
+}
